@@ -82,6 +82,23 @@ def gen_history(seed, max_edits=8, features=None, inproc_only=False, deps_ops=Tr
         if deps_ops and rng.random() < (0.3 if discipline else 0.8):
             steps.append(deps_step(cur))
         add_calls(cur, rng.randrange(1, 4))
+        if discipline and rng.random() < 0.15:
+            # a mishap: some operation fails halfway and is over; the program is what it was, and every later step must
+            # behave as if it had not happened
+            kinds = ["boom", "badresult", "badcall"]
+            decl = [(a["id"], c["to"]) for a in cur["nodes"] if a["kind"] == "memento" and not a.get("frozen")
+                    for c in a["calls"] if c["form"] == "declared"]
+            if decl:
+                kinds += ["glitch", "glitch"]
+            k = rng.choice(kinds)
+            st = {"op": "mishap", "kind": k}
+            if k == "glitch":
+                st["node"], st["callee"] = decl[rng.randrange(len(decl))]
+            elif k == "badcall":
+                rs = roots(cur)
+                st["node"] = rs[rng.randrange(len(rs))]
+            steps.append(st)
+            add_calls(cur, rng.randrange(1, 3))
         if rng.random() < 0.15:
             steps.append({"op": "restart"})
             add_calls(cur, 1)
@@ -238,6 +255,45 @@ def do_deps(prog, order=None):
     return rep
 
 
+MISHAP_SRC = '''
+import twosigma.memento as m
+from twosigma.memento.exception import NonMemoizedException
+
+@m.memento_function
+def vboom(x):
+    raise NonMemoizedException("boom %d" % x)
+
+@m.memento_function
+def vbadresult(x):
+    return {"not", "encodable", x}
+'''
+
+
+def do_mishap(prog, st):
+    """An operation that fails halfway (its exception reaches the caller) and leaves the program as it was."""
+    k = st["kind"]
+    try:
+        if k in ("boom", "badresult"):
+            mod = sys.modules.get("vmishap") or world.load_module("vmishap", MISHAP_SRC)
+            (mod.vboom if k == "boom" else mod.vbadresult)(1)
+        elif k == "badcall":
+            nd = prog["nodes"][st["node"]]
+            getattr(sys.modules[modname(prog, nd["module"])], nd["name"])({"an", "argument", "that cannot be hashed"})
+        elif k == "glitch":
+            a, b = prog["nodes"][st["node"]], prog["nodes"][st["callee"]]
+            if a["kind"] != "memento" or not any(c["to"] == b["id"] and c["form"] == "declared" for c in a["calls"]):
+                return ["skipped"]
+            mb = sys.modules[modname(prog, b["module"])]
+            obj = mb.__dict__.pop(b["name"])
+            try:
+                getattr(sys.modules[modname(prog, a["module"])], a["name"]).version()     # the declared dependency is missing
+            finally:
+                setattr(mb, b["name"], obj)
+        return ["no-exception"]
+    except BaseException as e:  # noqa
+        return ["raised", type(e).__name__]
+
+
 def lifetime_body(root, case, prog, steps, memo, li, emit):
     world.install_seams(case["seed"] + li)
     side = world.SideChannel()
@@ -260,6 +316,8 @@ def lifetime_body(root, case, prog, steps, memo, li, emit):
             emit({"si": si, "call": do_call(cur, st, memo, side)})
         elif st["op"] == "deps" and memo:
             emit({"si": si, "deps": do_deps(cur, st.get("order"))})
+        elif st["op"] == "mishap" and memo:
+            emit({"si": si, "mishap": do_mishap(cur, st)})
 
 
 def run_lifetime(root, case, prog, steps, memo, li):
@@ -382,6 +440,9 @@ def execute_history(case, want):
                 if g is None:
                     continue
                 log.append([si, g.get("call") and [[c["out"][:2] if c["out"][0] != "ok" else "ok", c["runs"]] for c in g["call"]] or sorted(g.get("deps", {}))])
+                if st["op"] == "mishap":
+                    bump("mishaps")
+                    bump("mishap:" + st["kind"] + ":" + g["mishap"][0])
                 if st["op"] == "call":
                     bump("calls")
                     bump("via:" + st["via"])
